@@ -78,7 +78,7 @@ def xv_json(args, **kw):
 
 # ------------------------------------------------------------------ TLC
 def run_tlc(module, cfg_text, wd, workers=None, timeout=900, env_extra=None, simulate=None, seed=None,
-            depth_first=False, coverage=False, name=None, heap="8g"):
+            depth_first=False, coverage=False, name=None, heap="8g", to_file=None):
     """Run TLC on spec/<module>.tla (path relative to spec/) with the given cfg text.
     Returns dict(out, generated, distinct, depth, ok, violated, wall)."""
     os.makedirs(wd, exist_ok=True)
@@ -110,9 +110,22 @@ def run_tlc(module, cfg_text, wd, workers=None, timeout=900, env_extra=None, sim
         cmd += ["-seed", str(seed)]
     cmd.append(os.path.join(wd, modname + ".tla"))
     t0 = time.time()
-    p = subprocess.run(cmd, cwd=wd, env=env, stdout=subprocess.PIPE, stderr=subprocess.STDOUT, text=True)
+    if to_file:
+        # large exports: stream TLC's output to a file, keep only its head and tail in memory
+        with open(to_file, "w") as fo:
+            p = subprocess.run(cmd, cwd=wd, env=env, stdout=fo, stderr=subprocess.STDOUT, text=True)
+        keep = []
+        with open(to_file, errors="replace") as fi:
+            for line in fi:
+                if not line.startswith('<<"REPLAY"'):
+                    keep.append(line)
+                    if len(keep) > 20000:
+                        keep = keep[:5000] + keep[-5000:]
+        out = "".join(keep)
+    else:
+        p = subprocess.run(cmd, cwd=wd, env=env, stdout=subprocess.PIPE, stderr=subprocess.STDOUT, text=True)
+        out = p.stdout
     wall = time.time() - t0
-    out = p.stdout
     shutil.rmtree(meta, ignore_errors=True)
     shutil.rmtree(os.path.join(wd, "states"), ignore_errors=True)
     if p.returncode == 124:
